@@ -396,7 +396,7 @@ WOPTS = st.sampled_from([{}, {}, {}, {"version": 1.2}, {"version": 2}, {"wrap": 
 
 @st.composite
 def generated(draw):
-    desc = draw(LB.las_desc(inf=False, p_text=4, p_empty=1, drops=True))
+    desc = draw(LB.las_desc(inf=False, p_text=4, p_empty=1, drops=True, extra_kinds=("i", "n", "o")))
     k = LB.roll(draw, 10)
     if k <= 6:
         methods = list(METHODS)
